@@ -88,9 +88,10 @@ def bounded(tier, seed):
                         discarding = True
                 elif op == "prune" and roots:
                     r = rnd.choice(roots)
-                    if r.name in ("dataset",):
-                        validate.prune(r, strict=rnd.choice([True, False]))
-                        discarding = True
+                    gone = validate.prune(r, strict=rnd.choice([True, False]))
+                    if any(g[0] is r for g in gone):
+                        roots.remove(r)       # the root itself was discarded (unknown element name)
+                    discarding = True
                 elif op == "expand" and roots:
                     r = rnd.choice(roots)
                     try:
